@@ -23,6 +23,9 @@ import (
 	"sync"
 	"time"
 
+	ojgen "github.com/ohler55/ojg/gen"
+
+	"verif/harness/absval"
 	"verif/harness/plib"
 )
 
@@ -52,6 +55,121 @@ type group struct {
 	C  int      `json:"c"`
 	PE bool     `json:"pe"`
 	M  string   `json:"m,omitempty"`
+	V  any      `json:"v,omitempty"`
+}
+
+// C02: values returned by whole-buffer (fast paths) and one-byte-chunked (byte-at-a-time paths) front-ends
+var setC02 = [][2]string{{"oj.Parse", ""}, {"oj.ParseReader", "whole"}, {"oj.ParseReader", "1"}, {"oj.Tokenize1", ""},
+	{"oj.TokenizeLoad1", "1"}, {"gen.Parse", ""}, {"gen.ParseReader", "1"}}
+
+var valOpt = absval.Opt{AlwaysDec: true, FloatMid: true}
+
+func observeValues(in []byte, set [][2]string) []group {
+	idx := map[string]int{}
+	gs := []group{}
+	for _, ac := range set {
+		o := plib.Call(ac[0], ac[1], in, true)
+		var v any
+		key := fmt.Sprintf("%d", o.R)
+		if o.R == 1 && depthOf(o.Value) > 60 {
+			continue // TLC's JSON reader has a nesting limit of 255; such documents are judged for syntax only (C01)
+		}
+		if o.R == 1 {
+			v = valOpt.Encode(o.Value)
+			jb, _ := json.Marshal(v)
+			key += string(jb)
+		}
+		if i, ok := idx[key]; ok {
+			gs[i].As = append(gs[i].As, o.API)
+		} else {
+			idx[key] = len(gs)
+			g := group{As: []string{o.API}, R: o.R, V: v}
+			if o.R == 2 {
+				g.M = o.Msg
+			}
+			gs = append(gs, g)
+		}
+	}
+	return gs
+}
+
+func depthOf(v any) int {
+	d := 0
+	switch t := v.(type) {
+	case []any:
+		for _, e := range t {
+			if x := depthOf(e); x > d {
+				d = x
+			}
+		}
+		return d + 1
+	case map[string]any:
+		for _, e := range t {
+			if x := depthOf(e); x > d {
+				d = x
+			}
+		}
+		return d + 1
+	case ojgen.Array:
+		for _, e := range t {
+			if x := depthOf(e); x > d {
+				d = x
+			}
+		}
+		return d + 1
+	case ojgen.Object:
+		for _, e := range t {
+			if x := depthOf(e); x > d {
+				d = x
+			}
+		}
+		return d + 1
+	}
+	return 0
+}
+
+// wrap: literals emitted by TLC (JsonValueGen) -> documents in grammar contexts
+func wrap(args []string) {
+	fs := flag.NewFlagSet("wrap", flag.ExitOnError)
+	all := fs.Bool("all", false, "every context for every literal (default: bare + one rotating context)")
+	fs.Parse(args)
+	out := bufio.NewWriterSize(os.Stdout, 1<<20)
+	defer out.Flush()
+	numCtx := []string{"L\n", " L ", "[L]", "[L,L]", "[ L ]", "{\"a\":L}", "{\"a\":L,\"b\":L }", "[[L],L\n]"}
+	strCtx := []string{"[L]", "{L:L}", "{\"k\":L}", "{L:1,L:2}", "[L,L]", "{\"a\":{L:[L]}}", " L\n"}
+	seen := map[string]bool{}
+	n := 0
+	readLines(os.Stdin, func(l []byte) {
+		var lit struct {
+			Kind string `json:"kind"`
+			B    []int  `json:"b"`
+		}
+		if err := json.Unmarshal(l, &lit); err != nil {
+			panic(err)
+		}
+		lb := string(plib.Bytes(lit.B))
+		if seen[lb] {
+			return
+		}
+		seen[lb] = true
+		ctxs := numCtx
+		if lit.Kind == "str" {
+			ctxs = strCtx
+		}
+		emit := func(c string) {
+			doc := strings.ReplaceAll(c, "L", lb)
+			out.Write(plib.MarshalLine(plib.Case{B: plib.Ints([]byte(doc)), Src: lit.Kind + ":" + c}))
+		}
+		emit("L")
+		if *all {
+			for _, c := range ctxs {
+				emit(c)
+			}
+		} else {
+			emit(ctxs[n%len(ctxs)])
+		}
+		n++
+	})
 }
 
 type traceLine struct {
@@ -76,6 +194,8 @@ func main() {
 		execCases(os.Args[2:])
 	case "probe":
 		probe(os.Args[2:])
+	case "wrap":
+		wrap(os.Args[2:])
 	default:
 		fmt.Fprintln(os.Stderr, "unknown mode", os.Args[1])
 		os.Exit(2)
@@ -157,6 +277,20 @@ func cover(args []string) {
 				emit(in, "step:"+s.Key)
 				emit(cat(in, c), "step+c:"+s.Key)
 			}
+			// the same transitions embedded behind earlier tokens (a string, a number, a newline), so that registers left
+			// behind by an earlier token (loop indexes, offsets, accumulators) are live when the transition is taken
+			if len(v) == len(w) && (len(w) == 0 || w[0] != 0xEF) {
+				for _, em := range embeddings {
+					pre, post := []byte(em[0]), []byte(em[1])
+					emit(cat(pre, w), "emb-eof:"+s.Key)
+					emit(cat(pre, w, c, post), "emb-compl:"+s.Key)
+					for _, x := range classReps {
+						in := cat(pre, w, []byte{x})
+						emit(in, "emb-step:"+s.Key)
+						emit(cat(in, c, post), "emb-step+c:"+s.Key)
+					}
+				}
+			}
 			// continuations "as if the byte had been accepted into some other grammar position": a wrong table
 			// cell typically shows only when a plausible rest of the document follows (DESIGN 6/C06)
 			cl := plib.Bytes(s.Cl)
@@ -171,6 +305,7 @@ func cover(args []string) {
 }
 
 var classReps = []byte(" \n{}[],:\"\\/bfnrtualseE01-+.x\x01\x7f\x80cA")
+var embeddings = [][2]string{{"[\"abcd\",\n ", "]"}, {"{\"kkkk\":\"ab\\ncd\",\"x\":[12.5e3,\n", "]}"}}
 var confusions = []string{"0", "1]", "1}", "\"\":0", ":0", "\"", "\":0", ",0", ",\"\":0", "ull", "rue", "alse", ".5", "e1", "5"}
 
 // ---------------------------------------------------------------- random
@@ -485,7 +620,11 @@ func execCases(args []string) {
 				inflightCase[w] = i
 				mu.Unlock()
 				in := plib.Bytes(cases[i].B)
-				res[i] = plib.MarshalLine(traceLine{B: cases[i].B, Src: cases[i].Src, O: observe(in, set)})
+				if *setName == "c02" {
+					res[i] = plib.MarshalLine(traceLine{B: cases[i].B, Src: cases[i].Src, O: observeValues(in, setC02)})
+				} else {
+					res[i] = plib.MarshalLine(traceLine{B: cases[i].B, Src: cases[i].Src, O: observe(in, set)})
+				}
 			}
 		}(w)
 	}
